@@ -48,6 +48,8 @@ mod wrapper;
 pub use self::sketch::CpcSketch;
 #[cfg(feature = "verif-hooks")]
 pub use self::sketch::VerifCpcState;
+#[cfg(feature = "verif-hooks")]
+pub(crate) use self::compression::verif_format_selectors;
 pub use self::union::CpcUnion;
 pub use self::wrapper::CpcWrapper;
 
